@@ -1,6 +1,8 @@
 import SwcVerif.Props.C16Gen
 import SwcVerif.Props.C08BranchTree
 import SwcVerif.Refine.ResampleTree2
+import SwcVerif.Props.C16Tree
+import SwcVerif.Refine.Node
 /-! # C16 — what the translated `TreeSmoother.__call__` leaves in the coordinate columns of a well-formed tree -/
 namespace C16Tree2
 open Gen.Algo Py Resample RefineSmoothTree C08 Trav Branches
@@ -240,3 +242,129 @@ example : C06.IsTree (.node 0 [.node 1 [.node 2 [.node 3 [.node 4 []], .node 5 [
   simp [Agrees, AgreesL, tableKids, Rose.id, Sub.rangeI, List.range, List.range.loop]
 
 end C16Tree2
+
+/-! ## parents come before children in the preorder listing: a rank for the branch tree -/
+namespace C16Tree2
+open C08 Trav Branches
+
+theorem id_mem_ids : ∀ r : Rose, r.id ∈ r.ids
+  | .node i ks => by simp [Rose.ids, Rose.id]
+
+mutual
+theorem edge_sub : ∀ r : Rose, ∀ p ∈ edges r, [p.1, p.2].Sublist r.ids
+  | .node i ks => by
+    intro p hp
+    simp only [edges, List.mem_append, List.mem_map] at hp
+    rcases hp with ⟨k, hk, rfl⟩ | hp
+    · refine List.Sublist.cons₂ i (List.singleton_sublist.2 ?_)
+      rw [idsL_eq]
+      exact List.mem_flatMap.2 ⟨k, hk, id_mem_ids k⟩
+    · exact (edgeL_sub ks p hp).cons i
+theorem edgeL_sub : ∀ ks : List Rose, ∀ p ∈ edgesL ks, [p.1, p.2].Sublist (idsL ks)
+  | [] => by simp [edgesL]
+  | r :: rs => by
+    intro p hp
+    simp only [edgesL, List.mem_append] at hp
+    rcases hp with hp | hp
+    · exact (edge_sub r p hp).trans (List.sublist_append_left _ _)
+    · exact (edgeL_sub rs p hp).trans (List.sublist_append_right _ _)
+end
+
+theorem idxOf_lt_of_sublist (a c : Int) : ∀ l : List Int, l.Nodup → [a, c].Sublist l → l.idxOf a < l.idxOf c
+  | [], _, h => by simp at h
+  | x :: l, hn, h => by
+    rw [List.nodup_cons] at hn
+    cases h with
+    | cons _ h' =>
+      have ha : a ∈ l := h'.subset (by simp)
+      have hc : c ∈ l := h'.subset (by simp)
+      have h1 : x ≠ a := fun e => hn.1 (e ▸ ha)
+      have h2 : x ≠ c := fun e => hn.1 (e ▸ hc)
+      have := idxOf_lt_of_sublist a c l hn.2 h'
+      simp [List.idxOf_cons, h1, h2]
+      omega
+    | cons_cons _ h' =>
+      have hc : c ∈ l := h'.subset (by simp)
+      have h2 : a ≠ c := fun e => hn.1 (e ▸ hc)
+      simp [List.idxOf_cons, h2]
+
+theorem chain_lt (f : Int → Nat) : ∀ (a : Int) (t : List Int), t ≠ [] → (∀ p ∈ pairs (a :: t), f p.1 < f p.2) →
+    f a < f ((a :: t).getLastD 0)
+  | a, [], h, _ => absurd rfl h
+  | a, [c], _, hp => by simpa [pairs] using hp (a, c) (by simp [pairs])
+  | a, c :: d :: t, _, hp => by
+    have h1 : f a < f c := hp (a, c) (by simp [pairs])
+    have h2 := chain_lt f c (d :: t) (by simp) (fun p hpm => hp p (by rw [pairs_cons_cons]; exact List.mem_cons_of_mem _ hpm))
+    simp only [List.getLastD_cons] at h2 ⊢
+    simp at h2 ⊢
+    omega
+
+/-- the first node of every branch comes before its last node in the preorder listing of the tree -/
+theorem branch_pre_lt (kidsOf : Int → List Int) (r : Rose) (hA : Agrees kidsOf r) (hD : r.ids.Nodup) (b : List Int) (hb : b ∈ branchesOf r) :
+    r.ids.idxOf (b.headD 0) < r.ids.idxOf (b.getLastD 0) := by
+  obtain ⟨top, mi, last, rfl, _⟩ := branch_shape kidsOf r hA b hb
+  exact chain_lt (fun x => r.ids.idxOf x) top (mi ++ [last]) (by simp) (fun p hp =>
+    idxOf_lt_of_sublist _ _ _ hD (edge_sub r p ((branches_partition_edges r).mem_iff.1 (List.mem_flatMap.2 ⟨_, hb, hp⟩))))
+
+end C16Tree2
+
+/-! # the tree-level resampling driver without the `Rep` hypothesis -/
+namespace C16Tree
+open Asm Gen.Algo RefineAsm RefineResamTree C16Asm Trav
+
+section
+variable {σ : Type} [Inhabited σ] (resample : σ → List Int → σ × List Int)
+  (pair : σ → List (List Int) → List Int → σ × List ((List Int) × Int)) (dupFirst dupLast : List Int → Int → Bool)
+
+/-- what is asked of the pairing callback (ANY function otherwise; the library's `pair` is a greedy matching, `C16.pair_exact`): the pairs it
+returns do not depend on the callback state, and it hands back only children it was given -/
+def PairOK : Prop :=
+  (∀ (s s' : σ) brs cs, (pair s brs cs).2 = (pair s' brs cs).2) ∧ ∀ (s : σ) brs cs, ∀ pr ∈ (pair s brs cs).2, pr.2 ∈ cs
+
+/-- **`Rep` derived** for a branch tree whose ids are positions and whose parent column is acyclic (a rank that drops from parent to child):
+whatever the resampler callback returns (no condition on the number of samples), the resampled branch tree represents a rose tree -/
+theorem rep_of_ranked (tid tpid : List Int) (branches : Py.Dict Int (List (List Int))) (hid : tid = Sub.rangeI tpid.length)
+    (h0 : 0 < tpid.length) (hp : PairOK pair) (rk : Int → Nat)
+    (hrk : ∀ j c : Int, 0 ≤ j → c ∈ tableKids (Sub.rangeI tpid.length) tpid j → rk c < rk j) :
+    ∃ root, Rep pair dupFirst dupLast tid tpid branches root 0 := by
+  subst hid
+  refine rep_exists pair dupFirst dupLast _ tpid branches (fun h => 0 ≤ h ∧ h.toNat < tpid.length) rk ?_ (rk 0 + 1) 0 ⟨le_refl _, by simpa using h0⟩
+    (by omega)
+  intro h hd
+  refine ⟨tableKids (Sub.rangeI tpid.length) tpid h, h, RefineNode.node_children_spec _ tpid h hd.1 (by omega),
+    RefineNode.idx_rangeI _ h hd.1 (by omega), fun s s' => hp.1 s s' _ _, fun s pr hpr => ?_⟩
+  have hc := hp.2 s _ _ pr hpr
+  obtain ⟨hc0, hc1, _⟩ := (C06.mem_tableKids tpid h pr.2).1 hc
+  exact ⟨⟨hc0, hc1⟩, hrk h pr.2 hd.1 hc⟩
+
+
+/-- **the branch tree of a well-formed tree has an acyclic parent column**: the rank `n - (preorder position of the original node)` drops
+from every key node to its children -/
+theorem branchTree_ranked (r : Rose) (pids : List Int) (h : C06.IsTree r pids) :
+    let nodes := 0 :: (C08.branchesOf r).map (fun b => b.getLastD 0)
+    let bpid := -1 :: (C08.branchesOf r).map (fun b => ((nodes.idxOf (b.headD 0) : Nat) : Int))
+    ∀ j c : Int, 0 ≤ j → c ∈ tableKids (Sub.rangeI bpid.length) bpid j →
+      r.ids.length - r.ids.idxOf (nodes.getD c.toNat 0) < r.ids.length - r.ids.idxOf (nodes.getD j.toNat 0) := by
+  intro nodes bpid j c hj hc
+  obtain ⟨hc0, hc1, hcj⟩ := (C06.mem_tableKids bpid j c).1 hc
+  obtain ⟨_, _, _, _, hhead, _⟩ := C08.branchTree_model_spec r pids h
+  rcases hn : c.toNat with _ | c'
+  · simp [hn, bpid] at hcj; omega
+  · simp only [hn, bpid, List.getElem_cons_succ, List.getElem_map] at hcj
+    have hc' : c' < (C08.branchesOf r).length := by simp [bpid, hn] at hc1; omega
+    have hb := List.getElem_mem hc'
+    have hlt := C16Tree2.branch_pre_lt _ r h.1.1 h.1.2 _ hb
+    have hmem := hhead _ hb
+    have e1 : nodes.getD (c' + 1) 0 = ((C08.branchesOf r)[c']).getLastD 0 := by
+      simp [nodes, List.getD_eq_getElem?_getD, hc']
+    have e2 : nodes.getD j.toNat 0 = ((C08.branchesOf r)[c']).headD 0 := by
+      rw [← hcj]
+      simp only [Int.toNat_natCast, List.getD_eq_getElem?_getD]
+      rw [List.getElem?_eq_getElem (List.idxOf_lt_length_of_mem hmem)]
+      simp
+    rw [e1, e2]
+    have := List.idxOf_le_length (a := ((C08.branchesOf r)[c']).getLastD 0) (l := r.ids)
+    omega
+
+end
+end C16Tree
